@@ -159,7 +159,8 @@ def entries_of(u, prop_id):
     ms = members_of(u, prop_id)
     if not ms:
         return []
-    if os.environ.get("CGEN_SPLIT"):
+    if os.environ.get("CGEN_SPLIT") or (u.lmax >= 3 and u.world.heap_depth() >= 2):
+        # nested heap values at length bound 3 are the largest instances: one CBMC process (and one 120 s cap) per harness
         return [(h["name"], [h]) for h in ms]
     return [("h_all_c10" if prop_id == "C10" else "h_all_c11", ms)]
 
